@@ -52,6 +52,19 @@ def drainNext (st : Stage σ Int β) (drain : List Nat) (p : Pool σ Int β) : L
     | .value _ => some q
     | _ => none
 
+/-- partial-order reduction: a move that only changes one worker's own control point (user call
+returns, loop head, exit bookkeeping) is invisible and independent of every other process move, so it
+is taken first and alone; only channel operations are interleaved -/
+def reducedNext (st : Stage σ Int β) (p : Pool σ Int β) : List (Pool σ Int β) :=
+  let loc := (List.range p.nW).find? fun i => match (p.ws i).ctl with
+    | .calling _ _ => !p.gated
+    | .busy _ [] _ => true
+    | .exiting _ [] _ => true
+    | _ => false
+  match loc with
+  | some i => workerNext st p i
+  | none => procNext st p
+
 /-- quiescent states reachable by process moves from `init` (every interleaving) -/
 partial def closure (st : Stage σ Int β) (R : Render σ β) (nIn nOut : Nat) (drain : List Nat) (init : List (Pool σ Int β)) :
     List (Pool σ Int β) := Id.run do
@@ -71,7 +84,7 @@ partial def closure (st : Stage σ Int β) (R : Render σ β) (nIn nOut : Nat) (
       if p.panicked then
         quiet := p :: quiet
         continue
-      let nx := procNext st p ++ drainNext st drain p
+      let nx := reducedNext st p ++ drainNext st drain p
       if nx.isEmpty then quiet := p :: quiet
       else work := nx ++ work
   return quiet
